@@ -203,12 +203,99 @@ def run(tier, seed):
         chk.add_tlc(res, "rejection of a history-dependent outcome confirmed by TLC")
         if res.rc == 0 and not res.error:
             raise vlib.ToolError("Trace_Hist accepts a history the Python evaluation rejects")
+    session_part(chk, tier, seed)
     chk.extra["histories"] = len(hists)
     chk.extra["histories_rejected"] = len(bad)
     chk.exhaustive = False
     chk.sample({"history": hists[len(hists) // 2]["hist"], "limits": hists[len(hists) // 2]["limits"]})
     chk.sample({"fresh_outcomes": {f"{k[0]}@{k[1]}": v[:60] for k, v in list(base.items())[:8]}})
     return chk.finish()
+
+
+SESSION_TREE = {
+    "d1/main.jsonnet": '{ cfg: import "config.libsonnet", lib: (import "../shared/lib.libsonnet").v, txt: importstr "data.txt" }',
+    "d1/config.libsonnet": '{ replicas: 1 }',
+    "d1/data.txt": "one",
+    "d2/main.jsonnet": '{ cfg: import "config.libsonnet", lib: (import "../shared/lib.libsonnet").v, txt: importstr "data.txt" }',
+    "d2/config.libsonnet": '{ replicas: 5 }',
+    "d2/data.txt": "two",
+    "d3/main.jsonnet": '{ cfg: import "config.libsonnet", bin: importbin "data.txt" }',      # falls through to -J
+    "shared/lib.libsonnet": '{ v: std.trace("lib", 42), bad: error "lib bad" }',
+    "J/config.libsonnet": '{ replicas: 9 }',
+    "J/data.txt": "jay",
+    "fail/main.jsonnet": '(import "../shared/lib.libsonnet").bad',
+    "fail2/main.jsonnet": 'import "nonexistent.libsonnet"',
+    "again/main.jsonnet": '[(import "../d1/config.libsonnet").replicas, (import "../d2/config.libsonnet").replicas]',
+}
+SESSION_FILES = ["d1/main.jsonnet", "d2/main.jsonnet", "d3/main.jsonnet", "fail/main.jsonnet", "fail2/main.jsonnet",
+                 "again/main.jsonnet", "shared/lib.libsonnet"]
+
+
+def session_part(chk, tier, seed):
+    """The same property through rsjsonnet_front::Session (its import resolution and caches)."""
+    import shutil
+    root = vlib.workdir("c11", f"tmp{os.getpid()}")
+    try:
+        for rel, text in SESSION_TREE.items():
+            pth = os.path.join(root, rel)
+            os.makedirs(os.path.dirname(pth), exist_ok=True)
+            with open(pth, "w") as f:
+                f.write(text)
+        path = os.path.join(vlib.workdir("tlc"), "gen_hist_sess.cfg")
+        with open(path, "w") as f:
+            f.write("CONSTANTS Sources = {%s} CallSources = {} CallSrcSources = {} Limits = {} MaxLen = 3\n"
+                    "INIT Init\nNEXT Next\nINVARIANT Emit\nCHECK_DEADLOCK FALSE\n" % ", ".join(str(i) for i in range(len(SESSION_FILES))))
+        res = run_tlc("MC_Hist", path, "c11_hist_sess", workers=8, timeout=1800, coverage=False)
+        tlc_must_pass(res, "session history enumeration")
+        chk.add_tlc(res, "session histories of length 3")
+        hists = [h["hist"] for h in res.lines("CASE")]
+
+        def conc(q):
+            return {"op": "gc"} if q[0] == "gc" else {"op": "file", "path": os.path.join(root, SESSION_FILES[q[1]])}
+        jp = [os.path.join(root, "J")]
+        fresh = run_cases([{"k": "sess", "jpaths": jp, "reqs": [{"op": "file", "path": os.path.join(root, fn)}]}
+                           for fn in SESSION_FILES], "c11_sess_fresh", timeout_ms=30000)
+        base = {}
+        for i, r in enumerate(fresh):
+            base[i] = "CRASH" if vlib.is_crash(r) else json.dumps(r["outs"][0])
+        cases = [{"k": "sess", "jpaths": jp, "reqs": [conc(q) for q in h]} for h in hists]
+        results = run_cases(cases, "c11_sess", timeout_ms=60000)
+        lines = [{"ev": "fresh", "req": f"file:{i}", "limit": 500, "out": base[i], "ovf": False} for i in base]
+        nbad = 0
+        for h, case, r in zip(hists, cases, results):
+            chk.count(key="sess:" + json.dumps(h), nontrivial=True)
+            if vlib.is_crash(r):
+                chk.disagree({"kind": "session-history", "class": "crash"}, f"session history {h} crashed: {vlib.crash_desc(r)}", case)
+                continue
+            evs = [{"ev": "start"}]
+            ok = True
+            for k, (q, o) in enumerate(zip(h, r["outs"])):
+                if q[0] == "gc":
+                    continue
+                d = json.dumps(o)
+                evs.append({"ev": "req", "req": req_str(q), "fresh": f"file:{q[1]}", "limit": 500, "big": 500, "out": d})
+                if d != base[q[1]] and ok:
+                    ok = False
+                    nbad += 1
+                    chk.disagree({"kind": "session-history", "class": "outcome-depends-on-history", "file": SESSION_FILES[q[1]]},
+                                 f"session history {[ (x[0], SESSION_FILES[x[1]]) if len(x) > 1 else x for x in h]}: request #{k + 1} gives "
+                                 f"{d[:160]}, on a fresh session {base[q[1]][:160]}", case)
+            if ok:
+                lines.extend(evs)
+        pth = os.path.join(vlib.workdir("traces"), "c11_sess.ndjson")
+        with open(pth, "w") as f:
+            for rec in lines:
+                f.write(json.dumps(rec) + "\n")
+        res = run_tlc("Trace_Hist", "Trace_Hist.cfg", "c11_trace_sess", workers=1, env={"TRACE": pth}, timeout=1800,
+                      deque=True, coverage=False, heap="4g", stack="1g")
+        chk.add_tlc(res, f"session outcomes validated ({len(lines)} events)")
+        if res.rc != 0 or res.error:
+            raise vlib.ToolError(f"Trace_Hist rejected session outcomes the Python evaluation accepts: {res.out_path}")
+        chk.traces_validated += sum(1 for e in lines if e["ev"] == "start")
+        chk.extra["session_histories"] = len(hists)
+        chk.extra["session_histories_rejected"] = nbad
+    finally:
+        shutil.rmtree(root, ignore_errors=True)
 
 
 def replay(path):
